@@ -222,7 +222,12 @@ def program(E, cfg):
             coefs = [c * v for v in coefs]
         else:
             parked.append((cur, snapshot(cur), list(coefs)))
+            orig = cur
             cur = cur.copy()
+            for n in (("x", "y1", "y2") if kind == "lin" else ("x", "y")):
+                E.prove(getattr(cur, n) is not getattr(orig, n) and
+                        not np.shares_memory(getattr(cur, n), getattr(orig, n)),
+                        "a copy shares no memory with its original")
     _observe(E, "result", cur)
     us = sorted(used)
     check_combination(E, cur, [ops[k] for k in us], [coefs[k] for k in us], "history")
